@@ -176,6 +176,87 @@ Proof.
     destruct (run_steps m xs e1) as [[e2 o2] ok2] eqn:E. inversion Hr; subst. cbn. f_equal. eapply IH; eauto.
 Qed.
 
+
+(* ---------------------------------------------------------------- C07: any chunking *)
+Fixpoint run_chunks (m : model) (chunks : list (list ((nat -> option vec) * (nat -> option vec)))) (e : env)
+  : env * list (list vec) * bool :=
+  match chunks with
+  | [] => (e, [], true)
+  | c :: rest =>
+    let '(e1, o1, ok1) := run_steps m c e in
+    if ok1 then let '(e2, o2, ok2) := run_chunks m rest e1 in (e2, o1 ++ o2, ok2) else (e1, o1, false)
+  end.
+
+Theorem run_chunks_concat (m : model) : forall chunks (e : env),
+  run_chunks m chunks e = run_steps m (concat chunks) e.
+Proof.
+  induction chunks as [|c rest IH]; intros e; cbn [run_chunks concat]; [reflexivity|].
+  rewrite run_steps_app. destruct (run_steps m c e) as [[e1 o1] ok1]. destruct ok1; [|reflexivity].
+  rewrite IH. reflexivity.
+Qed.
+
+Lemma start_env_noop (m : model) (e : env) : start_env m false (fun _ => None) e = e.
+Proof.
+  unfold start_env. generalize (order m) as ds. intros ds. revert e.
+  induction ds as [|d ds IH]; intros e; cbn; [reflexivity|apply IH].
+Qed.
+
+(* a plain stateful run (no reset, no from_state) is run_steps from the current environment *)
+Lemma run_op_plain (m : model) steps (e : env) :
+  run_op m true false (fun _ => None) steps e = run_steps m steps e.
+Proof.
+  unfold run_op. rewrite start_env_noop. destruct (run_steps m steps e) as [[e1 o] ok]. reflexivity.
+Qed.
+
+(* generic online training: a train call is a fold of a per-step function over the sequence (no per-call state but the
+   update gate); cutting the sequence at a multiple of learn_every changes nothing *)
+Section Train.
+Context {S X O : Type}.
+Variable fwd : S -> X -> S * O.        (* call the node: new state (incl. weights), output = pre-update prediction *)
+Variable learn : S -> X -> S.          (* one learning-rule update *)
+Fixpoint train_from (k i : nat) (xs : list X) (s : S) : S * list O :=
+  match xs with
+  | [] => (s, [])
+  | x :: rest => let '(s1, o) := fwd s x in
+                 let s2 := if Nat.eqb (i mod k) 0 then learn s1 x else s1 in
+                 let '(s3, os) := train_from k (Datatypes.S i) rest s2 in (s3, o :: os)
+  end.
+Definition train (k : nat) (xs : list X) (s : S) := train_from k 0 xs s.
+
+Lemma train_from_app k : forall xs ys i s,
+  train_from k i (xs ++ ys) s =
+    let '(s1, o1) := train_from k i xs s in let '(s2, o2) := train_from k (i + length xs) ys s1 in (s2, o1 ++ o2).
+Proof.
+  induction xs as [|x xs IH]; intros ys i s; cbn [app train_from length].
+  - rewrite Nat.add_0_r. destruct (train_from k i ys s). reflexivity.
+  - destruct (fwd s x) as [s1 o]. rewrite IH.
+    destruct (train_from k (Datatypes.S i) xs _) as [s2 o1].
+    replace (Datatypes.S i + length xs) with (i + Datatypes.S (length xs)) by lia.
+    destruct (train_from k (i + Datatypes.S (length xs)) ys s2). reflexivity.
+Qed.
+
+Lemma train_from_shift k : 0 < k -> forall xs i s, train_from k (i + k) xs s = train_from k i xs s.
+Proof.
+  intros Hk. induction xs as [|x xs IH]; intros i s; cbn [train_from]; [reflexivity|].
+  destruct (fwd s x) as [s1 o].
+  replace ((i + k) mod k) with (i mod k).
+  2:{ rewrite <- (Nat.mul_1_l k) at 2. rewrite Nat.mod_add by lia. reflexivity. }
+  replace (Datatypes.S (i + k)) with (Datatypes.S i + k) by lia. rewrite IH. reflexivity.
+Qed.
+
+Theorem train_app_aligned k xs ys s : 0 < k -> (length xs) mod k = 0 ->
+  train k (xs ++ ys) s = let '(s1, o1) := train k xs s in let '(s2, o2) := train k ys s1 in (s2, o1 ++ o2).
+Proof.
+  intros Hk Hm. unfold train. rewrite train_from_app. destruct (train_from k 0 xs s) as [s1 o1]. cbn [Nat.add].
+  apply Nat.mod_divides in Hm; [|lia]. destruct Hm as [c Hc]. rewrite Hc.
+  assert (G : forall c i zs t, train_from k (i + k * c) zs t = train_from k i zs t).
+  { clear - Hk. induction c as [|c IHc]; intros i zs t.
+    - rewrite Nat.mul_0_r, Nat.add_0_r. reflexivity.
+    - replace (i + k * Datatypes.S c) with ((i + k * c) + k) by lia. rewrite train_from_shift by assumption. apply IHc. }
+  change (k * c) with (0 + k * c). rewrite (G c 0 ys s1). reflexivity.
+Qed.
+End Train.
+
 (* ---------------------------------------------------------------- C05: feedback timing *)
 (* unforced: the value handed to a receiver is the sender's state in [prev], the environment at the end of the
    previous step, wherever the sender sits in the execution order *)
@@ -189,6 +270,31 @@ Proof. intros Hf Hc. unfold fbvalue. rewrite Hf, Hc. reflexivity. Qed.
 Lemma fbvalue_forced (d : ndesc) (prev : env) clamp src v :
   nfb d = Some src -> clamp (nid d) = Some v -> fbvalue d prev clamp = Some v.
 Proof. intros Hf Hc. unfold fbvalue. rewrite Hf, Hc. reflexivity. Qed.
+
+
+(* without forced feedback the proxies are exactly the states at the end of the previous step and nothing is clamped *)
+Lemma proxies_unforced (m : model) (e : env) n : proxies m (fun _ => None) e n = e n.
+Proof. unfold proxies. destruct (find _ (order m)) as [d|]; [destruct (nfb d)|]; reflexivity. Qed.
+Lemma clamps_unforced (m : model) n : clamps m (fun _ => None) n = None.
+Proof.
+  unfold clamps. destruct (find _ (order m)) as [d|]; [|reflexivity].
+  unfold forced_value. destruct (nfb d) as [[s|outs]|]; reflexivity.
+Qed.
+(* the environment reached after the first k steps of a run *)
+Fixpoint env_after (m : model) (steps : list ((nat -> option vec) * (nat -> option vec))) (e : env) (k : nat) : env :=
+  match k, steps with
+  | S k', (ext, forced) :: rest => env_after m rest (fst (step m forced ext e)) k'
+  | _, _ => e
+  end.
+(* C05: in an unforced run, the feedback a node receives at step k is its sender's state at the end of step k-1
+   (the pre-run state for k = 0), for a sender anywhere in the graph or outside it *)
+Theorem run_feedback_delay (m : model) (d : ndesc) s steps (e : env) k :
+  nfb d = Some (FbNode s) ->
+  fbvalue d (proxies m (fun _ => None) (env_after m steps e k)) (clamps m (fun _ => None))
+  = Some (st (env_after m steps e k s)).
+Proof.
+  intros Hf. unfold fbvalue. rewrite Hf, clamps_unforced, proxies_unforced. reflexivity.
+Qed.
 
 (* dispatch: with shifting, step 0 sees zeros and step t+1 sees Y[t]; without, step t sees Y[t] *)
 Lemma shift_with_length (z : vec) ys : length (shift_with z ys) = length ys.
@@ -233,6 +339,59 @@ Lemma restore_st_hid (snap : env) : forall ids (e : env) n, hid (restore_st ids 
 Proof.
   unfold restore_st. induction ids as [|i ids IH] using rev_ind; intros e n; cbn; [reflexivity|].
   rewrite fold_left_app. cbn [fold_left]. rewrite set_st_hid. apply IH.
+Qed.
+
+
+(* generic fold of per-node state assignments (start_env, reset_op) *)
+Section FoldSet.
+Variable g : env -> ndesc -> env.
+Variable newst : ndesc -> vec -> vec.
+Hypothesis g_other : forall e d n, n <> nid d -> g e d n = e n.
+Hypothesis g_hid : forall e d n, hid (g e d n) = hid (e n).
+Hypothesis g_st : forall e d, st (g e d (nid d)) = newst d (st (e (nid d))).
+
+Lemma fold_g_frame : forall ds (e : env) n, ~ In n (map nid ds) -> fold_left g ds e n = e n.
+Proof.
+  induction ds as [|a ds IH]; intros e n Hn; cbn; [reflexivity|]. cbn in Hn.
+  rewrite IH by tauto. apply g_other. intros ->. tauto.
+Qed.
+Lemma fold_g_hid : forall ds (e : env) n, hid (fold_left g ds e n) = hid (e n).
+Proof. induction ds as [|a ds IH]; intros e n; cbn; [reflexivity|]. rewrite IH. apply g_hid. Qed.
+Lemma fold_g_st : forall ds (e : env) d, NoDup (map nid ds) -> In d ds ->
+  st (fold_left g ds e (nid d)) = newst d (st (e (nid d))).
+Proof.
+  induction ds as [|a ds IH]; intros e d Hnd Hin; [destruct Hin|]. cbn in Hnd. inversion Hnd as [|? ? Hna Hnd']; subst.
+  cbn [fold_left]. destruct Hin as [<-|Hin].
+  - rewrite fold_g_frame by assumption. apply g_st.
+  - rewrite IH by assumption. f_equal. f_equal. apply g_other.
+    intros Heq. apply Hna. rewrite <- Heq. apply in_map. assumption.
+Qed.
+End FoldSet.
+
+Lemma reset_op_spec (m : model) (e : env) n :
+  hid (reset_op m e n) = hid (e n) /\ (forall d, In d (order m) -> NoDup (map nid (order m)) -> st (reset_op m e (nid d)) = vzeros (odim d)).
+Proof.
+  unfold reset_op. split.
+  - apply (fold_g_hid (fun acc d => set_st acc (nid d) (vzeros (odim d)))). intros; apply set_st_hid.
+  - intros d Hd Hnd.
+    apply (fold_g_st (fun acc d => set_st acc (nid d) (vzeros (odim d))) (fun d _ => vzeros (odim d))); auto.
+    + intros; apply set_st_other; assumption.
+    + intros; apply set_st_st.
+Qed.
+
+Lemma start_env_spec (m : model) reset from (e : env) d :
+  In d (order m) -> NoDup (map nid (order m)) ->
+  st (start_env m reset from e (nid d)) =
+    match from (nid d) with Some v => v | None => if reset then vzeros (odim d) else st (e (nid d)) end.
+Proof.
+  intros Hd Hnd. unfold start_env.
+  apply (fold_g_st (fun acc d => match from (nid d) with
+                                 | Some v => set_st acc (nid d) v
+                                 | None => if reset then set_st acc (nid d) (vzeros (odim d)) else acc end)
+                   (fun d old => match from (nid d) with Some v => v | None => if reset then vzeros (odim d) else old end)); auto.
+  - intros a x n Hn. destruct (from (nid x)); [apply set_st_other; assumption|].
+    destruct reset; [apply set_st_other; assumption|reflexivity].
+  - intros a x. destruct (from (nid x)); [apply set_st_st|]. destruct reset; [apply set_st_st|reflexivity].
 Qed.
 
 (* a stateful=False operation leaves the current state of every node as it was - whether or not it failed *)
